@@ -290,6 +290,79 @@ DANGLING_IN_AGGREGATE = {
 }
 
 
+def ws_text(schema, recs):
+    """a working-session file: recs = [(state letter, id, keyword, params text)]"""
+    t = smodel.file_text(schema, ['#%d=%s(%s);' % (i, kw, pr) for st, i, kw, pr in recs])
+    t = t.replace('ISO-10303-21;', 'STEP_WORKING_SESSION;', 1).replace('END-ISO-10303-21;', 'END-STEP_WORKING_SESSION;')
+    for st, i, kw, pr in recs:
+        t = t.replace('\n#%d=' % i, '\n%s#%d=' % (st, i), 1)
+    return t
+
+
+def append_cases():
+    """a second working-session file appended to a loaded session: session ids dense / sparse / with a far-away last id, file ids that would collide
+    with them unless shifted beyond the LARGEST id of the session, every state for two of the appended instances"""
+    A = {'dense': (1, 2), 'sparse': (10, 5000), 'far-last': (10, 20, 2999), 'below-2k': (7, 1999)}
+    B = {'dense': (1, 2, 3), 'would-collide': (10, 3000, 3001), 'reversed': (5000, 1, 2), 'k-boundary': (990, 4990, 4991)}
+    for an, aids in A.items():
+        a_recs = [('C' if n % 2 == 0 else 'I', i, 'TGT', str(100 + n)) for n, i in enumerate(aids)]
+        for bn, bids in B.items():
+            for s1, s2 in itertools.product(STATES, repeat=2):
+                if s2 == 'D':
+                    continue        # the third instance refers to the second
+                b_recs = [(s1, bids[0], 'TGT', '201'), (s2, bids[1], 'TGT', '202'), ('C', bids[2], 'E_REF', '#%d' % bids[1])]
+                yield {'family': 'fk', 'append': True, 'session': an, 'file': bn, 'a': a_recs, 'b': b_recs, 'a_text': ws_text('fk', a_recs), 'b_text': ws_text('fk', b_recs)}
+
+
+def append_case(case):
+    d = p21run._G['d']
+    d.recycle_if_big()
+    pa, pb = os.path.join(d.dir, 'a.wsf'), os.path.join(d.dir, 'b.wsf')
+    open(pa, 'w').write(case['a_text'])
+    open(pb, 'w').write(case['b_text'])
+    res = {}
+    try:
+        d.cmd('new')
+        res['ra'] = drv.kv(d.cmd('readws ' + pa)[0])
+        res['dump_a'] = drv.parse_dump(d.cmd('dump'))
+        res['rb'] = drv.kv(d.cmd('appendws ' + pb)[0])
+        res['dump_ab'] = drv.parse_dump(d.cmd('dump'))
+    except drv.Crash as e:
+        res.update(p21run.crash_result(e))
+    return res
+
+
+def judge_append(case, res):
+    ctx = 'session-%s/file-%s' % (case['session'], case['file'])
+    if 'crash' in res:
+        return [('crash/%s/%s' % tuple(res['crash']), 'crash %s in %s' % tuple(res['crash']))]
+    da = [(i, s, t) for i, s, en, t in res['dump_a']]
+    dab = [(i, s, t) for i, s, en, t in res['dump_ab']]
+    want_a = [(i, st) for st, i, kw, pr in case['a'] if st != 'D']
+    if [(i, s) for i, s, t in da] != want_a:
+        return [('append/session-not-loaded', 'the session file alone loads as %r' % ([(i, s) for i, s, t in da],))]
+    out = []
+    if any(x not in dab for x in da):
+        out.append(('append/session-instance-changed/%s' % ctx, 'an instance of the session changed or vanished when a file was appended: before %r, after %r' % (da, dab)))
+    new = [x for x in dab if x not in da]
+    keep = [(st, i, kw, pr) for st, i, kw, pr in case['b'] if st != 'D']
+    if len(new) != len(keep):
+        out.append(('append/appended-count/%s' % ctx, '%d instances appended, the file holds %d that are not deleted: %r' % (len(new), len(keep), new)))
+        return out
+    offs = {n[0] - k[1] for n, k in zip(sorted(new), sorted(keep, key=lambda r: r[1]))}
+    if len(offs) != 1:
+        out.append(('append/ids-not-shifted-uniformly/%s' % ctx, 'appended ids %r for file ids %r' % ([n[0] for n in sorted(new)], sorted(k[1] for k in keep))))
+        return out
+    off = offs.pop()
+    for n, k in zip(sorted(new), sorted(keep, key=lambda r: r[1])):
+        want_txt = ('#%d=%s(%s);' % (k[1] + off, k[2], re.sub(r'#(\d+)', lambda m: '#%d' % (int(m.group(1)) + off), k[3]))).encode()
+        if n[1] != k[0]:
+            out.append(('append/state/%s->%s' % (k[0], n[1]), '#%d of the appended file has state %s in the file, %s in the session' % (k[1], k[0], n[1])))
+        elif k[0] != 'I' and n[2].strip().replace(b' ', b'') != want_txt and not (k[2] == 'E_REF' and any(b[0] == 'D' for b in case['b'])):
+            out.append(('append/value/%s' % ctx, '#%d of the appended file reads %r, expected %r' % (k[1], n[2].strip(), want_txt)))
+    return out
+
+
 def fams():
     return [smodel.family_K('fk', pairs='core'), smodel.family_I('fi')]
 
@@ -299,6 +372,14 @@ def replay(path):
     case = obj['case']
     fam = {f.name: f for f in fams()}[case['family']]
     lib = build.schema_lib(fam.express(), 'plain')
+    if case.get('append'):
+        r = p21run.run_many(lib, [case], fn=append_case, procs=1)[0]
+        print('session file:\n' + case['a_text'].split('DATA;')[1] + 'appended file:\n' + case['b_text'].split('DATA;')[1])
+        print('session alone :', [(i, s, t) for i, s, e, t in r.get('dump_a', [])])
+        print('after appendws:', [(i, s, t) for i, s, e, t in r.get('dump_ab', [])])
+        v = judge_append(case, r)
+        print('verdict:', v)
+        return 1 if v else 0
     r = p21run.run_many(lib, [case], fn=session_case, procs=1)[0]
     print('input:\n' + case['text'].split('DATA;')[1])
     print('states:', case['states'])
@@ -343,6 +424,18 @@ def main():
                 chk.outcome(kp.split('/')[0])
                 chk.violation('%s/%s' % (PID, kp), what, dict(c))
         chk.bounds[fam.name] = {'histories': len(cases), 'max_instances': 3 if args.tier == 'quick' else 4}
+        if fam.name == 'fk':
+            ac = list(append_cases())
+            for c, r in zip(ac, p21run.run_many(lib, ac, fn=append_case, chunksize=8)):
+                chk.count(states=1, transitions=2)
+                chk.cls('append-working-session')
+                v = judge_append(c, r)
+                if not v:
+                    chk.outcome('ok')
+                for kp, what in v:
+                    chk.outcome(kp.split('/')[0])
+                    chk.violation('%s/%s' % (PID, kp), what, dict(c))
+            chk.bounds['append'] = {'histories': len(ac)}
     if chk.outcomes.get('ok', 0) == 0:
         chk.harness_error('vacuous: no history passed')
     sys.exit(chk.finish())
